@@ -799,6 +799,13 @@ Proof.
       eapply Hset; eassumption.
 Qed.
 
+(* only agents of the history ever appear in a cell *)
+Lemma listed_known e ops a c : caps_ok e -> In a (content (exec e init ops) c) -> in_agents e a = true.
+Proof.
+  intros Hc Hin. destruct (refinement e Hc ops init ainit (R_init e)) as [HR _].
+  apply (r_in e _ _ HR) in Hin. tauto.
+Qed.
+
 (* ---------------------------------------------------------------- the C18 lemmas under the names Properties/C18.v re-exports *)
 Lemma C18_cellspace_atomic_obs e s o s' k :
   caps_ok e -> Inv e s -> step e s o = (s', Err k) -> obs e s' (Err k) = obs e s (Err k).
